@@ -17,12 +17,16 @@ pub(crate) use uuid::Uuid;
 mod macros;
 pub(crate) mod leaf_common;
 pub(crate) mod shape_common;
-#[cfg(any(verif_unit = "all", verif_unit = "messages_0", verif_unit = "messages_1", verif_unit = "messages_2", verif_unit = "messages_3", verif_unit = "messages_4", verif_unit = "messages_5", verif_unit = "packetizer"))]
+#[cfg(any(verif_unit = "all", verif_unit = "messages_0", verif_unit = "messages_1", verif_unit = "messages_2", verif_unit = "messages_3", verif_unit = "messages_4", verif_unit = "messages_5", verif_unit = "messages_q0", verif_unit = "messages_q1", verif_unit = "messages_q2", verif_unit = "packetizer", verif_unit = "transport"))]
 pub(crate) mod messages_common;
-#[cfg(any(verif_unit = "all", verif_unit = "messages_0", verif_unit = "messages_1", verif_unit = "messages_2", verif_unit = "messages_3", verif_unit = "messages_4", verif_unit = "messages_5"))]
+#[cfg(any(verif_unit = "all", verif_unit = "messages_0", verif_unit = "messages_1", verif_unit = "messages_2", verif_unit = "messages_3", verif_unit = "messages_4", verif_unit = "messages_5", verif_unit = "messages_q0", verif_unit = "messages_q1", verif_unit = "messages_q2"))]
 mod messages_gen;
 #[cfg(any(verif_unit = "all", verif_unit = "packetizer"))]
 mod packetizer;
+#[cfg(any(verif_unit = "all", verif_unit = "transport"))]
+mod transport;
+#[cfg(all(feature = "tokio", any(verif_unit = "all", verif_unit = "tokio_transport")))]
+mod tokio_transport;
 
 #[cfg(any(verif_unit = "all", verif_unit = "buf_ext"))]
 mod buf_ext;
